@@ -8,6 +8,12 @@ pub mod parser;
 mod serde;
 pub mod subtags;
 
+#[cfg(unic_locale_verif)]
+#[doc(hidden)]
+pub mod verif_tables {
+    pub use crate::layout_table::*;
+}
+
 pub use crate::errors::LanguageIdentifierError;
 use std::fmt::Write;
 use std::iter::Peekable;
